@@ -25,7 +25,7 @@ from c11 import HAND_SCHEMA
 
 PROP = "C03"
 PROP_FILE = "C03_Typecheck"
-THEOREMS = ['c03_sound_partial', 'c03_impossible_partial', 'c03_policy_sound_partial', 'c03_strict_in_permissive_partial', 'c03_accepts_guarded', 'c03_store_ok_from_checker']
+THEOREMS = ['c03_sound_partial', 'c03_impossible_partial', 'c03_policy_sound_partial', 'c03_strict_in_permissive_partial', 'c03_accepts_guarded', 'c03_subty_sound', 'c03_store_ok_from_checker']
 
 MANIFEST = {
     "text": "Executable Gallina typechecker `tc` transcribed arm by arm from validator/typecheck.rs (+ subtype / lub / "
